@@ -6,6 +6,7 @@ import (
 	"go/token"
 	"go/types"
 	"path/filepath"
+	"sort"
 	"strings"
 
 	"golang.org/x/tools/go/ssa"
@@ -246,7 +247,11 @@ func init() {
 			runRangeGuard(c, r, "GUARD", 10000000)
 			runCondLazy(c, r, "LAZY")
 			m := runEnumSwitches(c, r, "TAB", []string{"jsonata"}, map[string]bool{"NumericOperator": true, "ComparisonOperator": true, "BooleanOperator": true})
-			r.RequireMin("TAB operator enum switches in the evaluator", m, 3)
+			// the same dispatch written as an if-chain, or moved into a helper, has no switch
+			// statement with a default; its "unrecognised operator" panic is then judged on SSA
+			// (reached only when the operator differs from every declared constant)
+			m += runEnumPanics(c, r, "TAB", libFuncsIn(c, c.REval), map[string]bool{"jparse.NumericOperator": true, "jparse.ComparisonOperator": true, "jparse.BooleanOperator": true})
+			r.RequireMin("TAB operator dispatches in the evaluator (switch statements and exhaustive comparison chains)", m, 3)
 			k := runRegistrationSwitch(c, r, "TAB")
 			r.RequireMin("TAB led/nud registration-vs-switch checks", k, 4)
 			ot := runOPTAB(c, r, "OPTAB")
@@ -566,6 +571,119 @@ func exhaustiveEnumDefault(c *Ctx, ins ssa.Instruction) string {
 	return ""
 }
 
+// runEnumPanics: explicit panics that are the "no constant matched" exit of a dispatch over a
+// named integer type — whether the dispatch is a switch with a default, a switch followed by the
+// panic, or a chain of ifs. Each is an obligation: every declared constant of the type must
+// have been compared with on the way (exhaustiveEnumDefault); a panic behind only some of the
+// constants is reachable for the others.
+func runEnumPanics(c *Ctx, r *Result, rule string, fns []*ssa.Function, only map[string]bool) int {
+	bndCtx = c
+	n := 0
+	for _, f := range fns {
+		if f.Name() == "panicf" {
+			continue
+		}
+		ord := 0
+		for _, ins := range instrsIn(f) {
+			isPanic := false
+			switch x := ins.(type) {
+			case *ssa.Panic:
+				isPanic = true
+			case ssa.CallInstruction:
+				if callee := x.Common().StaticCallee(); callee != nil && callee.Name() == "panicf" {
+					isPanic = true
+				}
+			}
+			if !isPanic {
+				continue
+			}
+			tname, partial := enumDefaultOf(c, ins)
+			if tname == "" || (only != nil && !only[tname]) {
+				continue
+			}
+			ord++
+			n++
+			o := Obligation{Rule: rule, Key: fmt.Sprintf("%s:dispatch(%s)#%d", shortFn(f), tname, ord), Fn: shortFn(f), Pos: c.W.Pos(ins.Pos()), Nontrivial: true}
+			if len(partial) == 0 {
+				o.Verdict, o.Reason = Discharged, "the panic is reached only when the value differs from every declared constant of "+tname
+			} else {
+				o.Verdict, o.Reason = Finding, fmt.Sprintf("the dispatch over %s does not handle %v before it panics: a value the parser can produce reaches the panic", tname, partial)
+			}
+			r.Add(o)
+		}
+	}
+	return n
+}
+
+// enumDefaultOf: when ins is reached only over false edges of `tag == K` comparisons on a value
+// of a named integer type of the module, the type and the declared constants NOT compared with.
+func enumDefaultOf(c *Ctx, ins ssa.Instruction) (string, []string) {
+	seen := map[string]map[int64]bool{}
+	tagOf := map[string]ssa.Value{}
+	for d := ins.Block(); d != nil; d = d.Idom() {
+		if len(d.Preds) != 1 {
+			continue
+		}
+		pr := d.Preds[0]
+		iff, ok := pr.Instrs[len(pr.Instrs)-1].(*ssa.If)
+		if !ok || pr.Succs[1] != d || pr.Succs[0] == d {
+			continue
+		}
+		bo, ok := iff.Cond.(*ssa.BinOp)
+		if !ok || bo.Op != token.EQL {
+			continue
+		}
+		k, ok := bo.Y.(*ssa.Const)
+		if !ok || k.Value == nil || k.Value.Kind() != constant.Int {
+			continue
+		}
+		nt, ok := bo.X.Type().(*types.Named)
+		if !ok || nt.Obj().Pkg() == nil || !c.Lib[nt.Obj().Pkg()] {
+			continue
+		}
+		name := nt.Obj().Pkg().Name() + "." + nt.Obj().Name()
+		if prev, has := tagOf[name]; has && prev != bo.X {
+			if bndCtx == nil || bndCtx.canon(prev) != bndCtx.canon(bo.X) {
+				continue
+			}
+		}
+		tagOf[name] = bo.X
+		if seen[name] == nil {
+			seen[name] = map[int64]bool{}
+		}
+		v, _ := constant.Int64Val(k.Value)
+		seen[name][v] = true
+	}
+	best, bestN := "", 0
+	for name, ks := range seen {
+		if len(ks) > bestN {
+			best, bestN = name, len(ks)
+		}
+	}
+	if best == "" {
+		return "", nil
+	}
+	nt := tagOf[best].Type().(*types.Named)
+	var missing []string
+	scope := nt.Obj().Pkg().Scope()
+	byVal := map[int64]string{}
+	for _, nm := range scope.Names() {
+		if cst, ok := scope.Lookup(nm).(*types.Const); ok && types.Identical(cst.Type(), nt) {
+			v, _ := constant.Int64Val(cst.Val())
+			if _, dup := byVal[v]; !dup {
+				byVal[v] = nm
+			}
+		}
+	}
+	for v, nm := range byVal {
+		if !seen[best][v] {
+			missing = append(missing, nm)
+		}
+	}
+	sort.Strings(missing)
+	return best, missing
+}
+
 func runPanics(c *Ctx, r *Result, rule string, reach *Reach, tabProved map[string]bool) int {
 	bndCtx = c
 	n := 0
@@ -629,7 +747,8 @@ func init() {
 			r.RequireMin("NF accessor sites under Eval", n, 130)
 			runEvalDispatch(c, r, "TAB")
 			m := runEnumSwitches(c, r, "TAB", []string{"jsonata", "jlib", "jxpath", "jtypes"}, nil)
-			r.RequireMin("TAB enum switches with a panicking/erroring default", m, 4)
+			m += runEnumPanics(c, r, "TAB", libFuncsIn(c, c.REval), nil)
+			r.RequireMin("TAB enum dispatches with a panicking/erroring default (switch statements and exhaustive comparison chains)", m, 4)
 			tabProved := map[string]bool{"jsonata.eval": true, "jsonata.evalNumericOperator": true, "jsonata.evalComparisonOperator": true, "jsonata.evalBooleanOperator": true}
 			p := runPanics(c, r, "PANIC", c.REval, tabProved)
 			r.RequireMin("PANIC explicit panic sites under Eval", p, 5)
